@@ -93,6 +93,13 @@ def scenarios(tier, seed):
         path = busmem.wb_path(dict(wbw=w, pw=p))
         out.append(_sc("sweep-write-abort-%d-%d" % (w, p), w, p, s + 80 + i, plans=_sweep_plans(w, path, 1, offs if not q else offs[:8]),
                        lat=(3, 9), bound=300))
+    # ---- B3: stimuli generated by TLC from the design model (8-bit Wishbone, 16-bit port = the model's constants)
+    for i, g in enumerate(busmem.WB_GOALS):
+        out.append(_sc("tlc-goal-" + g, 8, 16, s + 110 + i, tlc=dict(goal=g, extra=3 if q else 12), stall=0.5, lat=(3, 6), bound=400))
+    out.append(_sc("tlc-simulate", 8, 16, s + 120, tlc=dict(sim=40 if q else 400, depth=100), bound=400))
+    # ---- reverse bridge LiteDRAMNative2Wishbone (native master in front, Wishbone slave memory behind)
+    for i, (dw, base) in enumerate([(32, 0), (64, 0x10000000), (8, 0x400)] if q else [(32, 0), (64, 0x10000000), (8, 0x400), (16, 0x4000), (128, 0)]):
+        out.append(dict(name="reverse-%d-%x" % (dw, base), kind="nat2wb", dw=dw, base=base, seed=s + 130 + i, runs=2 if q else 6, nops=150))
     # ---- lock-step binding of the design models (8-bit Wishbone, base 0)
     out.append(_sc("lockstep-narrow-r2", 8, 16, s + 90, runs=1, nops=260, window=8, p_abort_w=0.15, p_abort_r=0.2, lockstep=True))
     out.append(_sc("lockstep-narrow-r4", 8, 32, s + 91, runs=1, nops=260, window=12, p_abort_w=0.15, p_abort_r=0.2, lockstep=True))
@@ -101,13 +108,15 @@ def scenarios(tier, seed):
 
 
 def execute(sc, workdir):
+    if sc.get("kind") == "nat2wb":
+        return busmem.execute_nat2wb(sc, workdir)
     return busmem.execute_bus(sc, workdir, "wb")
 
 
 def finding_key(entry, sc):
     # entry = [clause, context ("plain" | "after-aborted-write"), ...]; key = clause|context|path
     ctx = entry[1] if len(entry) > 1 and entry[1] in ("plain", "after-aborted-write") else "plain"
-    return "%s|%s|%s" % (entry[0], ctx, busmem.wb_path(sc))
+    return "%s|%s|%s" % (entry[0], ctx, "reverse" if sc.get("kind") == "nat2wb" else busmem.wb_path(sc))
 
 
 def models(tier, seed):
@@ -121,8 +130,8 @@ def models(tier, seed):
              label="D_WbEq equal path, code as read: TLC exhibits the aborted-write defect (expected violation)"),
         dict(module="MC_Wb2Native", cfg="MC_Wb2Native_neg_stale.cfg", workers=2, timeout=600, expect_violation=True,
              label="negative control: read cache not invalidated by a write"),
-        dict(module="MC_Wb2Native", cfg="MC_Wb2Native_neg_merge.cfg", workers=2, timeout=600, expect_violation=True,
-             label="negative control: merge into an occupied lane"),
+        dict(module="MC_Wb2Native", cfg="MC_Wb2Native_neg_ackwm.cfg", workers=2, timeout=600, expect_violation=True,
+             label="negative control: unmergeable write acknowledged (lost)"),
         dict(module="MC_Wb2Native", cfg="MC_Wb2Native_cover.cfg", workers=2, timeout=600, expect_violation=True,
              extra=("-simulate", "num=4000", "-depth", "400"),
              label="vacuity guard (narrow): cache hit, aborted read, merge, both flush causes, burst are reachable in one behaviour"),
@@ -132,10 +141,10 @@ def models(tier, seed):
     ]
     if not q:
         ms += [
-            dict(module="MC_Wb2Native", cfg="MC_Wb2Native_neg_flush.cfg", workers=2, timeout=900, expect_violation=True,
-                 label="negative control: no flush on the last beat"),
-            dict(module="MC_Wb2Native", cfg="MC_Wb2Native_neg_bypass.cfg", workers=2, timeout=900, expect_violation=True,
-                 label="negative control: read overtakes a pending merged write"),
+            dict(module="MC_Wb2Native", cfg="MC_Wb2Native_neg_lane.cfg", workers=2, timeout=900, expect_violation=True,
+                 label="negative control: cache hit returns the wrong lane"),
+            dict(module="MC_Wb2Native", cfg="MC_Wb2Native_thorough2.cfg", workers=8, timeout=3000,
+                 label="D_Wb2Native narrow path, command stalls (STALL=1), vs R_WbMem (exhaustive)"),
             dict(module="MC_Wb2Native", cfg="MC_Wb2Native_neg_aborted.cfg", workers=2, timeout=900, expect_violation=True,
                  label="negative control: aborted flag ignored"),
             dict(module="MC_Wb2Native", cfg="MC_WbEq_neg_aborted.cfg", workers=2, timeout=900, expect_violation=True,
